@@ -105,7 +105,7 @@ func run(work, scnFile, traceFile string, quiet bool) {
 	self, _ := os.Executable()
 	r, err := coresim.NewRunner(work, rec, batch, self, quiet)
 	must(err)
-	done, skipped := 0, []int{}
+	done, skipped, taintedBy := 0, []int{}, -1
 	for _, s := range batch {
 		if r.Tainted() {
 			skipped = append(skipped, s.ID)
@@ -113,11 +113,14 @@ func run(work, scnFile, traceFile string, quiet bool) {
 		}
 		r.Run(s)
 		done++
+		if r.Tainted() {
+			taintedBy = s.ID
+		}
 	}
 	must(rec.Close())
 	r.Close()
 	sk, _ := json.Marshal(skipped)
-	fmt.Printf("scenarios=%d lines=%d tainted=%v skipped=%s\n", done, rec.Lines(), r.Tainted(), sk)
+	fmt.Printf("scenarios=%d lines=%d tainted=%v taintedby=%d skipped=%s\n", done, rec.Lines(), r.Tainted(), taintedBy, sk)
 	os.Exit(0)
 }
 
